@@ -22,11 +22,12 @@ type c15Model struct {
 	Price  int64            // current collateral price according to the harness' own record of parameter changes
 	Blocks int              // NextBlock events so far (bounded so that the space saturates)
 	Rec    map[string]int64 // provider -> amount locked at registration
+	Buys   int              // storage purchases so far (bounded)
 }
 
 func (m c15Model) Key() []byte { return jkey(m) }
 func (m c15Model) clone() c15Model {
-	n := c15Model{Price: m.Price, Blocks: m.Blocks, Rec: map[string]int64{}}
+	n := c15Model{Price: m.Price, Blocks: m.Blocks, Rec: map[string]int64{}, Buys: m.Buys}
 	for k, v := range m.Rec {
 		n.Rec[k] = v
 	}
@@ -63,6 +64,9 @@ func (C15) Events(env world.Env, m mc.Model) []string {
 	evs = append(evs, "Price:1", "Price:2", "Price:half")
 	if m.(c15Model).Blocks < 1 {
 		evs = append(evs, "NextBlock")
+	}
+	if m.(c15Model).Buys < 1 { // other money moving through the storage module: the escrow is not its source
+		evs = append(evs, "BuyStorage:C:none", "BuyStorage:C:A")
 	}
 	return evs
 }
@@ -106,6 +110,16 @@ func (C15) Apply(env world.Env, mm mc.Model, ev string) mc.Step {
 		})
 		m.Price = np
 		st.Outcome = "ok"
+	case "BuyStorage":
+		msg := storagetypes.NewMsgBuyStorage(w.A(p[1]).Bech, w.A(p[1]).Bech, 30, 1_000_000_000, "ujkl")
+		if p[2] != "none" {
+			msg.Referral = w.A(p[2]).Bech
+		}
+		m.Buys++
+		st.Exercised = append(st.Exercised, "storage-purchase")
+		if env.Deliver(msg).OK() {
+			st.Outcome = "ok"
+		}
 	case "Init", "InitUpper":
 		who := w.A(p[1])
 		creator := who.Bech
